@@ -308,7 +308,7 @@ pub fn defs() -> Vec<CheckDef> {
     vec![CheckDef {
         id: "C19",
         level: "fault_enumeration",
-        runs_quick: 150_000,
+        runs_quick: 250_000,
         runs_thorough: 5_000_000,
         block: 256,
         gen: gen_c19,
